@@ -207,6 +207,12 @@ class Engine(object):
             self.driver.add_region(r)
             self.regions.append(r)
             rec["cmd"] = "addregion %r" % (r,)
+        elif kind == "settings":
+            # plugin layer: a settings save (the reference @-command table follows the configuration)
+            self.driver.write_settings(step[1])
+            rec["cmd"] = "settings"
+            if step[1].get("at") is not None:
+                self.at_table = [(c, (None if p is None else re.compile(p)), a) for c, p, a in step[1]["at"]]
         elif kind == "script":
             self._script(rec, step[1], step[2])
         elif kind == "event":
